@@ -52,6 +52,9 @@ type DColl struct {
 	RootOff int64
 	Items   []DItem // in-order
 	Nodes   []DNode
+	// IgnoreBytes: CheckAggregates compares node counts only (byte totals are
+	// unspecified under a value-transforming callback pair)
+	IgnoreBytes bool
 }
 
 // DRoot is a decoded root record.
@@ -247,7 +250,7 @@ func (c *DColl) CheckAggregates() error {
 			return 0, 0, err
 		}
 		cn, cb := ln+rn+1, lb+rb+itemBytes[n.ItemOff]
-		if cn != n.NumNodes || cb != n.NumBytes {
+		if cn != n.NumNodes || (!c.IgnoreBytes && cb != n.NumBytes) {
 			return 0, 0, fmt.Errorf("node record at %d: persisted aggregates (%d,%d) != recomputed (%d,%d)", off, n.NumNodes, n.NumBytes, cn, cb)
 		}
 		return cn, cb, nil
